@@ -217,6 +217,133 @@ def hb_kind(pair, prefix, placement):
     return name
 
 
+# ---- one probe per fault site ---------------------------------------------------------------------
+# harness/c03/faultsites.py enumerates every place of the VM that raises an exception; the probes below are
+# int-valued expressions over a trigger t that raise a stated exception iff t == 0 (value 9 otherwise).  Which
+# site a probe reaches is MEASURED by the check (opcode at which the traced run faults), not claimed here.
+SITE_RECORDS = "enum ER { A { x : int; }, B }\n"
+SITE_HELPERS = """func pner(t : int) -> ER { var a = {[ 2 ]} : ER; a[1] = ER::A(4); a[t == 0 ? 0 : 1] }
+func g2() -> [_,_] : int { [ [ 1, 2, 3 ], [ 4, 5, 6 ] ] : int }
+func prng(t : int) -> [..] : range { var a = {[ 2 ]} : [..] : range; a[1] = [ 0 .. 5 ]; a[t == 0 ? 0 : 1] }
+func pslc(t : int) -> [..] : int { var a = {[ 2 ]} : [..] : int; a[1] = garr()[0 .. 2]; a[t == 0 ? 0 : 1] }
+func stdiv() -> int { 1 / zero() } catch (division_by_zero) { 0 }
+func stoob() -> int { garr()[3 + zero()] } catch (index_out_of_bounds) { 0 }
+func stnil() -> int { prec(zero()).x } catch (nil_pointer) { 0 }
+func stsize() -> int { first(mk(zero()) + gy2()) } catch (wrong_array_size) { 0 }
+func stffi() -> int { pffi(zero()) } catch (ffi_fail) { 0 }
+func stdom() -> int { sqrt(zero() - 1.0) > 0.0 ? 1 : 0 } catch (invalid_domain) { 0 }
+"""
+STALE = {"division_by_zero": "stdiv()", "index_out_of_bounds": "stoob()", "nil_pointer": "stnil()",
+         "wrong_array_size": "stsize()", "ffi_fail": "stffi()", "invalid_domain": "stdom()"}
+NUMT = [("int", "7", "%s"), ("long", "7L", "((%s) + 0L)"), ("float", "7.0", "((%s) + 0.0)"), ("double", "7.0d", "((%s) + 0.0d)")]
+
+
+def _site_probes():
+    P = []
+
+    def add(name, exc, tmpl):
+        P.append((name.replace(":", "/"), exc, tmpl))
+    for ty, lit, conv in NUMT:
+        add("div:" + ty, "division_by_zero", lambda t, lit=lit, conv=conv: "{ let spx = %s / %s; 9 }" % (lit, conv % t))
+        if ty in ("int", "long"):
+            add("mod:" + ty, "division_by_zero", lambda t, lit=lit, conv=conv: "{ let spx = %s %% %s; 9 }" % (lit, conv % t))
+        nilarr = "{ var spa = {[ 2 ]} : [_] : %s; spa[1] = [ %s, %s ] : %s; " % (ty, lit, lit, ty)
+        sel = "spa[(%s) == 0 ? 0 : 1]"
+        nilok = ty in ("int", "float")      # an array of long / double arrays does not typecheck on the pinned tree
+        if nilok:
+          add("neg-nil-array:" + ty, "nil_pointer", lambda t, a=nilarr, sel=sel: a + "let spz = -(%s); 9 }" % (sel % t))
+        for opn, op in (("add", "+"), ("sub", "-")):
+            if nilok:
+                add("%s-nil-array-left:%s" % (opn, ty), "nil_pointer",
+                    lambda t, a=nilarr, sel=sel, op=op: a + "let spz = %s %s spa[1]; 9 }" % (sel % t, op))
+                add("%s-nil-array-right:%s" % (opn, ty), "nil_pointer",
+                    lambda t, a=nilarr, sel=sel, op=op: a + "let spz = spa[1] %s %s; 9 }" % (op, sel % t))
+            add("%s-arrays-of-different-size:%s" % (opn, ty), "wrong_array_size",
+                lambda t, ty=ty, op=op: "{ let spx = {[ (%s) == 0 ? 3 : 2 ]} : %s; let spy = {[ 2 ]} : %s; let spz = spx %s spy; 9 }" % (t, ty, ty, op))
+            add("%s-matrices-of-different-shape:%s" % (opn, ty), "wrong_array_size",
+                lambda t, ty=ty, op=op: "{ let spx = {[ 2, (%s) == 0 ? 3 : 2 ]} : %s; let spy = {[ 2, 2 ]} : %s; let spz = spx %s spy; 9 }" % (t, ty, ty, op))
+        nilmat = "{ var spa = {[ 2 ]} : [_,_] : %s; spa[1] = [ [ %s, %s ], [ %s, %s ] ] : %s; " % (ty, lit, lit, lit, lit, ty)
+        if nilok:
+            add("scalar-times-nil-array:" + ty, "nil_pointer", lambda t, a=nilarr, sel=sel, lit=lit: a + "let spz = %s * %s; 9 }" % (lit, sel % t))
+            add("matrix-product-nil-left:" + ty, "nil_pointer", lambda t, a=nilmat, sel=sel: a + "let spz = %s * spa[1]; 9 }" % (sel % t))
+            add("matrix-product-nil-right:" + ty, "nil_pointer", lambda t, a=nilmat, sel=sel: a + "let spz = spa[1] * %s; 9 }" % (sel % t))
+        add("matrix-product-not-conformable:" + ty, "wrong_array_size",
+            lambda t, ty=ty: "{ let spx = {[ 2, (%s) == 0 ? 3 : 2 ]} : %s; let spy = {[ 2, 2 ]} : %s; let spz = spx * spy; 9 }" % (t, ty, ty))
+        add("array-extent-zero:" + ty, "index_out_of_bounds", lambda t, ty=ty: "{ let spx = {[ (%s) == 0 ? 0 : 2 ]} : %s; 9 }" % (t, ty))
+        add("array-extent-negative-2nd:" + ty, "index_out_of_bounds", lambda t, ty=ty: "{ let spx = {[ 2, (%s) == 0 ? 0 - 3 : 2 ]} : %s; 9 }" % (t, ty))
+        add("array-extent-product-too-large:" + ty, "wrong_array_size",
+            lambda t, ty=ty: "{ let spx = {[ (%s) == 0 ? 65536 : 1, (%s) == 0 ? 65536 : 1 ]} : %s; 9 }" % (t, t, ty))
+    for nm, ty in (("char", "char"), ("string", "string"), ("array", "[_] : int"), ("record", "R"), ("function", "(int) -> int")):
+        add("array-extent-zero:" + nm, "index_out_of_bounds", lambda t, ty=ty: "{ let spx = {[ (%s) == 0 ? 0 : 2 ]} : %s; 9 }" % (t, ty))
+        add("array-extent-product-too-large:" + nm, "wrong_array_size",
+            lambda t, ty=ty: "{ let spx = {[ (%s) == 0 ? 65536 : 1, (%s) == 0 ? 65536 : 1 ]} : %s; 9 }" % (t, t, ty))
+    for ty, lit in (("int", "7"), ("long", "7L"), ("float", "7.5"), ("double", "7.5d"), ("char", "'c'")):
+        add("concat-%s-nil-string" % ty, "nil_pointer", lambda t, lit=lit: "{ let sps = %s + pstr(%s); 9 }" % (lit, t))
+        add("concat-nil-string-%s" % ty, "nil_pointer", lambda t, lit=lit: "{ let sps = pstr(%s) + %s; 9 }" % (t, lit))
+    add("concat-nil-string-string", "nil_pointer", lambda t: '{ let sps = pstr(%s) + "x"; 9 }' % t)
+    add("concat-string-nil-string", "nil_pointer", lambda t: '{ let sps = "x" + pstr(%s); 9 }' % t)
+    add("eq-nil-string", "nil_pointer", lambda t: '(pstr(%s) == "hello" ? 9 : 9)' % t)
+    add("neq-nil-string", "nil_pointer", lambda t: '("hello" != pstr(%s) ? 9 : 9)' % t)
+    add("match-nil-enum-record", "nil_pointer", lambda t: "(match pner(%s) { ER::A(x) -> x + 5; ER::B -> 9; })" % t)
+    add("iflet-nil-enum-record", "nil_pointer", lambda t: "(if let (ER::A(x) = pner(%s)) { x + 5 } else { 9 })" % t)
+    add("assign-nil-string", "nil_pointer", lambda t: '{ var sps = "a"; sps = pstr(%s); 9 }' % t)
+    add("assign-nil-array", "nil_pointer", lambda t: "{ var spb = [ 1 ] : int; spb = parr(%s); 9 }" % t)
+    add("assign-nil-function", "nil_pointer", lambda t: "{ var spf = inc1; spf = pfun(%s); 9 }" % t)
+    add("slice-of-nil-array", "nil_pointer", lambda t: "{ let sps = parr(%s)[0 .. 1]; 9 }" % t)
+    add("range-of-nil-range", "nil_pointer", lambda t: "{ let sps = prng(%s)[1 .. 2]; 9 }" % t)
+    add("range-of-range-upper-out-of-bounds", "index_out_of_bounds", lambda t: "{ let spr = [ 0 .. 5 ]; let spq = spr[1 .. ((%s) == 0 ? 9 : 3)]; 9 }" % t)
+    add("range-of-range-lower-out-of-bounds", "index_out_of_bounds", lambda t: "{ let spr = [ 0 .. 5 ]; let spq = spr[((%s) == 0 ? 8 : 1) .. 3]; 9 }" % t)
+    add("range-of-range-2nd-dimension", "index_out_of_bounds", lambda t: "{ let spr = [ 0 .. 5, 0 .. 5 ]; let spq = spr[1 .. 2, 1 .. ((%s) == 0 ? 9 : 3)]; 9 }" % t)
+    add("slice-of-slice-upper-out-of-bounds", "index_out_of_bounds", lambda t: "{ let sps = garr()[0 .. 2]; let spq = sps[1 .. ((%s) == 0 ? 7 : 2)]; 9 }" % t)
+    add("slice-of-slice-lower-out-of-bounds", "index_out_of_bounds", lambda t: "{ let sps = garr()[0 .. 2]; let spq = sps[((%s) == 0 ? 5 : 1) .. 2]; 9 }" % t)
+    add("slice-of-slice-2nd-dimension", "index_out_of_bounds", lambda t: "{ let sps = g2()[0 .. 1, 0 .. 2]; let spq = sps[0 .. 1, 1 .. ((%s) == 0 ? 7 : 2)]; 9 }" % t)
+    add("slice-of-nil-slice", "nil_pointer", lambda t: "{ let spq = pslc(%s)[0 .. 1]; 9 }" % t)
+    add("slice-of-string-out-of-bounds", "index_out_of_bounds", lambda t: "{ let sps = gstr()[1 .. ((%s) == 0 ? 9 : 2)]; 9 }" % t)
+    add("array-index-negative", "index_out_of_bounds", lambda t: "garr()[(%s) - 1 < 0 ? (%s) - 1 : 0] - 1" % (t, t))
+    add("array-index-too-large", "index_out_of_bounds", lambda t: "(garr()[(%s) == 0 ? 3 : 0] - 1)" % t)
+    add("matrix-index-1st-dimension", "index_out_of_bounds", lambda t: "(g2()[(%s) == 0 ? 2 : 0, 0] + 8)" % t)
+    add("matrix-index-2nd-dimension", "index_out_of_bounds", lambda t: "(g2()[0, (%s) == 0 ? 3 : 0] + 8)" % t)
+    add("matrix-index-negative-2nd-dimension", "index_out_of_bounds", lambda t: "(g2()[0, (%s) == 0 ? 0 - 1 : 0] + 8)" % t)
+    add("index-of-nil-array", "nil_pointer", lambda t: "(parr(%s)[0] + 4)" % t)
+    add("range-index-negative", "index_out_of_bounds", lambda t: "{ let spr = [ 2 .. 5 ]; let spi = spr[(%s) == 0 ? 0 - 1 : 0]; 9 }" % t)
+    add("range-index-too-large", "index_out_of_bounds", lambda t: "{ let spr = [ 2 .. 5 ]; let spi = spr[(%s) == 0 ? 9 : 0]; 9 }" % t)
+    add("index-of-nil-range", "nil_pointer", lambda t: "{ let spi = prng(%s)[0]; 9 }" % t)
+    add("slice-index-negative", "index_out_of_bounds", lambda t: "{ let sps = garr()[0 .. 2]; let spi = sps[(%s) == 0 ? 0 - 1 : 0]; 9 }" % t)
+    add("slice-index-too-large", "index_out_of_bounds", lambda t: "{ let sps = garr()[0 .. 1]; let spi = sps[(%s) == 0 ? 2 : 0]; 9 }" % t)
+    add("slice-index-2nd-dimension", "index_out_of_bounds", lambda t: "{ let sps = g2()[0 .. 1, 0 .. 1]; let spi = sps[0, (%s) == 0 ? 2 : 0]; 9 }" % t)
+    add("index-of-nil-slice", "nil_pointer", lambda t: "{ let spi = pslc(%s)[0]; 9 }" % t)
+    add("slice-of-nil-array-index", "nil_pointer", lambda t: "{ let sps = parr(%s)[0 .. 1]; let spi = sps[0]; 9 }" % t)
+    add("string-index-too-large", "index_out_of_bounds", lambda t: "(ord(gstr()[(%s) == 0 ? 3 : 0]) - 88)" % t)
+    add("string-index-negative", "index_out_of_bounds", lambda t: "(ord(gstr()[(%s) == 0 ? 0 - 1 : 0]) - 88)" % t)
+    add("index-of-nil-string", "nil_pointer", lambda t: "(ord(pstr(%s)[0]) - 95)" % t)
+    add("field-of-nil-record", "nil_pointer", lambda t: "(prec(%s).x * 0 + 9)" % t)
+    add("call-of-nil-function", "nil_pointer", lambda t: "(pfun(%s)(4) + 4)" % t)
+    add("forin-nil-array", "nil_pointer", lambda t: "{ var spc = 9; for (e in parr(%s)) { spc = 9 }; spc }" % t)
+    add("listcomp-nil-array", "nil_pointer", lambda t: "{ let spl = [ e | e in parr(%s) ] : int; 9 }" % t)
+    add("prints-nil-string", "nil_pointer", lambda t: '{ let sps = prints((%s) == 0 ? pstr(0) : ""); 9 }' % t)
+    add("length-of-nil-string", "nil_pointer", lambda t: "(length(pstr(%s)) + 4)" % t)
+    add("ffi-library-missing", "ffi_fail", lambda t: "(pffi(%s) + 3)" % t)
+    add("ffi-library-missing-no-arguments", "ffi_fail", lambda t: "(pffi0(%s) + 3)" % t)
+    for b, (fs, os_) in HB_MATH.items():
+        for cname, args, exc in fs:
+            add("builtin-%s-%s" % (b, cname), exc,
+                lambda t, b=b, args=args, os_=os_: "{ %slet hbr = %s(%s); 9 }" % (
+                    "".join("let hbx%d = sel(%s, %s, %s); " % (i, t, a, os_[0][1][i]) for i, a in enumerate(args)),
+                    b, ", ".join("hbx%d" % i for i in range(len(args)))))
+    return P
+
+
+SITE_PROBES = _site_probes()
+
+
+def site_kind(name):
+    k = "site:" + name
+    if k not in KINDS:
+        nm, exc, tmpl = [p for p in SITE_PROBES if p[0] == name][0]
+        KINDS[k] = (exc, tmpl, lambda T: 9)
+    return k
+
+
 # ---- FFI calls with a record argument whose string / nested-record fields may be nil ------------
 # shape: string over S (string field), R (nested record P2 {x; y}), I (int field)
 FFILIB = "@C03FFILIB@"          # replaced by the path of the library built at check time
@@ -812,6 +939,42 @@ def family(seed, tier, ffilib=False):
             else:
                 p = g3.toplevel_direct(kind, rng3.randint(0, 2), rng3.randint(0, 2))
             p.decls = hbdecls
+            progs.append(p)
+    # 10. one probe per fault site (harness/c03/faultsites.py): (a) a matching typed clause, placed after a clause
+    #     for ANOTHER exception that was raised and handled earlier in the same run (a stale exception register
+    #     must not select it), (b) only non-matching clauses (among them the stale one) and a catch-all,
+    #     (c) nobody has a clause: the report must name the exception; (d) control: the trigger is not 0
+    rng4 = random.Random((seed * 15485863) ^ 0x517E)
+    g4 = Gen(rng4, pool=EXC_NAMES + ["overflow", "underflow"])
+    sdecls = (SITE_RECORDS, "", SITE_HELPERS + HB_HELPERS)
+    for pi, (pname, exc, _t) in enumerate(SITE_PROBES):
+        kind = site_kind(pname)
+        stales = [e for e in STALE if e != exc]
+        for mode in ("stale-typed", "stale-catch-all", "unhandled", "control"):
+            stale = stales[(pi + len(mode)) % len(stales)]
+            d = rng4.randint(0, 2)
+            k = rng4.randint(0, 2) if d else 0
+            j = rng4.randint(0, 3)
+            if mode == "stale-typed":
+                p = g4.chain(kind, k, d, j, rng4.choice(["first", "last", "only"]), decls=sdecls)
+                fn = p.funcs[j]
+                body = [Ex(Pm(N(9800 + j))), Ex(N(50000 + j))] if fn.name == "main" else g4.clause_body(80 + j)
+                fn.clauses = [c for c in fn.clauses if c[0] != stale]
+                fn.clauses.insert(0, (stale, body))
+            elif mode == "stale-catch-all":
+                p = g4.chain(kind, k, d, j, "all", decls=sdecls)
+                fn = p.funcs[j]
+                body = [Ex(Pm(N(9800 + j))), Ex(N(50000 + j))] if fn.name == "main" else g4.clause_body(80 + j)
+                fn.clauses = [(stale, body)] + [c for c in fn.clauses if c[0] not in (stale, exc)]
+            elif mode == "unhandled":
+                p = g4.chain(kind, k, d, 0, "absent", decls=sdecls)
+                for fn in p.funcs:
+                    fn.clauses = [c for c in fn.clauses if c[0] != stale]
+            else:
+                p = g4.chain(kind, k, d, j, "first", trig=rng4.randint(1, 3), decls=sdecls)
+            if mode != "control":
+                p.funcs[-1].body[0:0] = [Raw("let spst = %s" % STALE[stale])]
+            p.coords = "site:%s:%s:after-%s:%s" % (pname, mode, stale if mode != "control" else "-", p.coords[len(kind) + 1:])
             progs.append(p)
     # 6. random rest
     extra = 60 if tier == "quick" else 2500
